@@ -1,5 +1,6 @@
 import PolyVerif.Model.PolyJson
 import PolyVerif.Spec.JsonLossless
+import PolyVerif.Model.PolyJsonViews
 /-
 Helper lemmas for Props/C15: round trips of the scalar / map / slice codecs and of each struct
 (evaluated against the regenerated table), the order lemmas behind the canonical map form.
@@ -211,5 +212,49 @@ theorem seqOfList_norm (p : S) : ∀ ls : List Location,
   | [] => by simp [Location.normList]
   | x :: xs => by simp [Location.normList, Location.seqOfList, seqOf_norm p x, seqOfList_norm p xs]
 end
+
+/-! ### the writers' views do not see nil-vs-empty collections nor parent pointers -/
+
+mutual
+theorem toPLoc_norm : ∀ l : Location, l.norm.toPLoc = l.toPLoc
+  | .mk s e c j f t subs => by
+    simp only [Location.norm, Location.toPLoc, Location.subsToPLoc, subsToPLoc_norm subs]
+theorem subsToPLoc_norm : ∀ o : Option (List Location),
+    Location.listToPLoc (Location.normSubs o) = Location.subsToPLoc o
+  | none => by simp [Location.normSubs, Location.subsToPLoc, Location.listToPLoc]
+  | some xs => by simp [Location.normSubs, Location.subsToPLoc, listToPLoc_norm xs]
+theorem listToPLoc_norm : ∀ ls : List Location,
+    Location.listToPLoc (Location.normList ls) = Location.listToPLoc ls
+  | [] => by simp [Location.normList]
+  | x :: xs => by simp [Location.normList, Location.listToPLoc, toPLoc_norm x, listToPLoc_norm xs]
+end
+
+theorem start_norm : ∀ l : Location, l.norm.start = l.start
+  | .mk .. => rfl
+theorem stop_norm : ∀ l : Location, l.norm.stop = l.stop
+  | .mk .. => rfl
+
+theorem mapView_norm (m : SMap) : mapView (some (m.getD [])) = mapView m := by
+  cases m <;> rfl
+
+theorem feature_toGbk_norm (f : Feature) : f.norm.toGbk = f.toGbk := by
+  simp [Feature.toGbk, Feature.norm, toPLoc_norm, mapView_norm]
+
+theorem feature_toGff_norm (f : Feature) : f.norm.toGff = f.toGff := by
+  simp [Feature.toGff, Feature.norm, start_norm, stop_norm, mapView_norm]
+
+theorem toGbk_norm (x : Sequence) : x.norm.toGbk = x.toGbk := by
+  simp [Sequence.toGbk, Sequence.norm, Meta.toGbk, Meta.norm, mapView_norm, Function.comp_def, feature_toGbk_norm]
+
+theorem toGff_norm (x : Sequence) : x.norm.toGff = x.toGff := by
+  simp [Sequence.toGff, Sequence.norm, Meta.norm, Function.comp_def, feature_toGff_norm]
+
+/-- the GenBank writer's view is a function of the `≈`-class -/
+theorem toGbk_congr (a c : Sequence) (h : a.Equiv c) : a.toGbk = c.toGbk := by
+  rw [← toGbk_norm a, ← toGbk_norm c, show a.norm = c.norm from h]
+
+/-- the GFF writer's view is a function of the `≈`-class -/
+theorem toGff_congr (a c : Sequence) (h : a.Equiv c) : a.toGff = c.toGff := by
+  rw [← toGff_norm a, ← toGff_norm c, show a.norm = c.norm from h]
 
 end PolyVerif.PolyJson
